@@ -695,6 +695,91 @@ def _private(name):
     return name.startswith("_") and not name.startswith("__")
 
 
+def _literal_value(e, depth=0):
+    if isinstance(e, ast.Constant):
+        return True
+    if isinstance(e, ast.UnaryOp) and isinstance(e.op, ast.USub) and isinstance(e.operand, ast.Constant):
+        return True
+    if depth > 3:
+        return False
+    if isinstance(e, (ast.Tuple, ast.List, ast.Set)):
+        return all(_literal_value(x, depth + 1) for x in e.elts)
+    if isinstance(e, ast.Dict):
+        return all(k is not None and _literal_value(k, depth + 1) for k in e.keys) \
+            and all(_literal_value(v, depth + 1) for v in e.values)
+    return False
+
+
+def _inline_new_constants(tree, ref_tree):
+    """A private module-level name the reference does not have, bound once to a literal and only ever read (looked up,
+    tested for membership, iterated, measured) stands for that literal: uses are replaced by it and the binding goes."""
+    ref_names = {n.id for n in ast.walk(ref_tree) if isinstance(n, ast.Name)} | \
+                {a.arg for a in ast.walk(ref_tree) if isinstance(a, ast.arg)}
+    cands = {}
+    for st in tree.body:
+        if isinstance(st, ast.Assign) and len(st.targets) == 1 and isinstance(st.targets[0], ast.Name) \
+                and _private(st.targets[0].id) and st.targets[0].id not in ref_names and _literal_value(st.value):
+            cands[st.targets[0].id] = st
+    if not cands:
+        return []
+    parents = {}
+    for p in ast.walk(tree):
+        for c in ast.iter_child_nodes(p):
+            parents[c] = p
+    uses = {k: [] for k in cands}
+    for n in ast.walk(tree):
+        if isinstance(n, (ast.Global, ast.Nonlocal)):
+            for nm in n.names:
+                cands.pop(nm, None)
+        elif isinstance(n, ast.arg) and n.arg in cands:
+            cands.pop(n.arg, None)
+        elif isinstance(n, ast.Constant) and isinstance(n.value, str) and n.value in cands:
+            cands.pop(n.value, None)        # named in __all__ / getattr
+        elif isinstance(n, ast.Name) and n.id in cands:
+            st = cands[n.id]
+            if n is st.targets[0]:
+                continue
+            if not isinstance(n.ctx, ast.Load):
+                cands.pop(n.id, None)
+                continue
+            immutable = isinstance(st.value, (ast.Constant, ast.UnaryOp)) or (
+                isinstance(st.value, ast.Tuple) and all(isinstance(x, (ast.Constant, ast.UnaryOp)) for x in st.value.elts))
+            p = parents.get(n)
+            ok = immutable
+            if not ok and isinstance(p, ast.Attribute) and p.attr in ("get", "keys", "values", "items", "index", "count") \
+                    and isinstance(parents.get(p), ast.Call) and parents[p].func is p:
+                ok = True
+            if not ok and isinstance(p, ast.Subscript) and p.value is n and isinstance(p.ctx, ast.Load):
+                ok = True
+            if not ok and isinstance(p, ast.Compare) and n in p.comparators and all(isinstance(o, (ast.In, ast.NotIn)) for o in p.ops):
+                ok = True
+            if not ok and isinstance(p, (ast.For, ast.comprehension)) and p.iter is n:
+                ok = True
+            if not ok and isinstance(p, ast.Call) and isinstance(p.func, ast.Name) and p.func.id in (
+                    "len", "tuple", "sorted", "frozenset", "set", "list", "dict", "iter", "enumerate", "max", "min", "sum"):
+                ok = True
+            if not ok:
+                cands.pop(n.id, None)
+                continue
+            uses.setdefault(n.id, []).append(n)
+    done = []
+    for name, st in cands.items():
+        for n in uses.get(name, []):
+            p = parents[n]
+            lit = ast.parse(ast.unparse(st.value), mode="eval").body
+            for fld, val in ast.iter_fields(p):
+                if val is n:
+                    setattr(p, fld, lit)
+                elif isinstance(val, list):
+                    for i, x in enumerate(val):
+                        if x is n:
+                            val[i] = lit
+        tree.body.remove(st)
+        done.append(name)
+    ast.fix_missing_locations(tree)
+    return done
+
+
 def inline_new_helpers(tree, ref_tree, hier=None):
     """Inline, inside ``tree``, private helpers that ``ref_tree`` does not define.  Returns the names inlined."""
     ref_top = {s.name for s in ref_tree.body if isinstance(s, FuncTypes)}
@@ -712,6 +797,7 @@ def inline_new_helpers(tree, ref_tree, hier=None):
                                      and m.name not in ref_methods.get(s.name, set()) and not m.decorator_list
                                      and m.args.args and m.args.args[0].arg == "self"}
     done = []
+    done.extend(_inline_new_constants(tree, ref_tree))
 
     def ref_closures(qual):
         # names of functions nested in the reference's function(s) of that qualified name (strategies share names)
